@@ -9,6 +9,7 @@
 package c16
 
 import (
+	"encoding/base64"
 	"encoding/hex"
 	"encoding/json"
 	"fmt"
@@ -18,9 +19,14 @@ import (
 	"time"
 
 	sdkmath "cosmossdk.io/math"
+	codectypes "github.com/cosmos/cosmos-sdk/codec/types"
+	"github.com/cosmos/cosmos-sdk/crypto/keys/ed25519"
+	cryptotypes "github.com/cosmos/cosmos-sdk/crypto/types"
 	sdk "github.com/cosmos/cosmos-sdk/types"
+	"github.com/cosmos/cosmos-sdk/types/query"
 	banktypes "github.com/cosmos/cosmos-sdk/x/bank/types"
 	distrtypes "github.com/cosmos/cosmos-sdk/x/distribution/types"
+	stakingkeeper "github.com/cosmos/cosmos-sdk/x/staking/keeper"
 	stakingtypes "github.com/cosmos/cosmos-sdk/x/staking/types"
 	transfertypes "github.com/cosmos/ibc-go/v7/modules/apps/transfer/types"
 	clienttypes "github.com/cosmos/ibc-go/v7/modules/core/02-client/types"
@@ -42,6 +48,7 @@ type driver struct {
 	w    *world.World
 	abis precomp.ABIs
 	O, W int
+	Op   int // operator of V2
 	tier string
 	all  []string
 }
@@ -52,9 +59,10 @@ func e17(n int64) sdkmath.Int { return sdkmath.NewInt(n).Mul(sdkmath.NewInt(1000
 
 func newDriver(tier string) *driver {
 	cp := coinomicstypes.DefaultParams()
-	w := world.New(world.Options{NumAccounts: 5, NumVals: 2, Coinomics: &cp, Balance: e17(100),
+	// validator V2 is operated by account 4 (for withdrawValidatorCommission)
+	w := world.New(world.Options{NumAccounts: 5, NumVals: 2, Coinomics: &cp, Balance: e17(100), ValOperators: map[int]int{1: 4},
 		ExtraCoins: sdk.NewCoins(sdk.NewInt64Coin("atest", 1000))})
-	d := &driver{w: w, O: 1, W: 2, tier: tier}
+	d := &driver{w: w, O: 1, W: 2, Op: 4, tier: tier}
 	d.abis = precomp.Load(w)
 	ctx := w.Ctx()
 	// max supply for coinomics so that rewards accrue
@@ -63,6 +71,7 @@ func newDriver(tier string) *driver {
 	// Ethereum transactions leave the same account record
 	d.mustDeliver(d.cosmosTx(banktypes.NewMsgSend(w.Addrs[d.O], w.Addrs[d.W], sdk.NewCoins(sdk.NewInt64Coin(world.Denom, 1)))))
 	d.mustDeliver(d.cosmosTx(stakingtypes.NewMsgDelegate(w.Addrs[d.O], w.ValAddr[0], sdk.NewCoin(world.Denom, e17(10)))))
+	d.mustDeliver(d.cosmosTxAs(d.Op, banktypes.NewMsgSend(w.Addrs[d.Op], w.Addrs[d.W], sdk.NewCoins(sdk.NewInt64Coin(world.Denom, 1)))))
 	// a coin-origin token pair so that the bank precompile has something to report
 	if _, err := w.App.Erc20Keeper.RegisterCoin(w.Ctx(), banktypes.Metadata{
 		Description: "test", Base: "atest", Display: "test", Name: "test", Symbol: "TEST",
@@ -78,8 +87,10 @@ func newDriver(tier string) *driver {
 	return d
 }
 
-func (d *driver) cosmosTx(msgs ...sdk.Msg) []byte {
-	bz, err := d.w.CosmosTx(d.w.Ctx(), world.CosmosSpec{Key: d.w.Keys[d.O], Msgs: msgs, Gas: 3000000})
+func (d *driver) cosmosTx(msgs ...sdk.Msg) []byte { return d.cosmosTxAs(d.O, msgs...) }
+
+func (d *driver) cosmosTxAs(k int, msgs ...sdk.Msg) []byte {
+	bz, err := d.w.CosmosTx(d.w.Ctx(), world.CosmosSpec{Key: d.w.Keys[k], Msgs: msgs, Gas: 3000000})
 	if err != nil {
 		panic(err)
 	}
@@ -92,10 +103,12 @@ func (d *driver) mustDeliver(bz []byte) {
 	}
 }
 
-func (d *driver) ethTx(to common.Address, data []byte) []byte {
+func (d *driver) ethTx(to common.Address, data []byte) []byte { return d.ethTxAs(d.O, to, data) }
+
+func (d *driver) ethTxAs(k int, to common.Address, data []byte) []byte {
 	w := d.w
-	nonce := w.App.AccountKeeper.GetAccount(w.Ctx(), w.Addrs[d.O]).GetSequence()
-	bz, err := world.WrapEth(w.SignEth(w.Keys[d.O], world.EthSpec{Nonce: nonce, Gas: 3000000, To: &to, GasPrice: big.NewInt(0), Data: data}))
+	nonce := w.App.AccountKeeper.GetAccount(w.Ctx(), w.Addrs[k]).GetSequence()
+	bz, err := world.WrapEth(w.SignEth(w.Keys[k], world.EthSpec{Nonce: nonce, Gas: 3000000, To: &to, GasPrice: big.NewInt(0), Data: data}))
 	if err != nil {
 		panic(err)
 	}
@@ -137,6 +150,7 @@ type call struct {
 	to     common.Address
 	data   []byte
 	native []sdk.Msg // nil: no native counterpart can even be formed (must fail on the precompile side)
+	by     int       // signing account (0: the owner)
 }
 
 func (d *driver) calls() []call {
@@ -280,6 +294,57 @@ func (d *driver) calls() []call {
 	if !w.App.DistrKeeper.GetDelegatorWithdrawAddr(ctx, O).Equals(O) {
 		wd = "other"
 	}
+	// staking.createValidator vs MsgCreateValidator (the owner is not a validator operator yet)
+	{
+		type descT struct{ Moniker, Identity, Website, SecurityContact, Details string }
+		type commT struct{ Rate, MaxRate, MaxChangeRate *big.Int }
+		dec := func(s string) *big.Int { return sdk.MustNewDecFromStr(s).BigInt() }
+		fresh := ed25519.GenPrivKeyFromSecret([]byte("verif-c16-validator")).PubKey()
+		used, _ := w.App.StakingKeeper.GetValidator(ctx, v1)
+		usedPk, _ := used.ConsPubKey()
+		type cv struct {
+			name           string
+			rate           string
+			valAddr        string
+			pk             cryptotypes.PubKey
+			minSelf, value *big.Int
+		}
+		own := sdk.ValAddress(O).String()
+		cases := []cv{
+			{"ok,1", "0.10", own, fresh, big.NewInt(1), big.NewInt(1)},
+			{"ok,mid", "0.10", own, fresh, big.NewInt(1), e17(1).BigInt()},
+			{"ok,all+1", "0.10", own, fresh, big.NewInt(1), bal.AddRaw(1).BigInt()},
+			{"value0", "0.10", own, fresh, big.NewInt(1), big.NewInt(0)},
+			{"below-minself", "0.10", own, fresh, e17(2).BigInt(), e17(1).BigInt()},
+			{"rate-below-min", "0.01", own, fresh, big.NewInt(1), e17(1).BigInt()},
+			{"rate-above-max", "0.30", own, fresh, big.NewInt(1), e17(1).BigInt()},
+			{"other-operator", "0.10", sdk.ValAddress(w.Addrs[d.W]).String(), fresh, big.NewInt(1), e17(1).BigInt()},
+			{"pubkey-in-use", "0.10", own, usedPk, big.NewInt(1), e17(1).BigInt()},
+		}
+		for _, x := range cases {
+			desc := descT{Moniker: "verif", Details: "d"}
+			c := call{name: "staking.createValidator(" + x.name + ")", to: precomp.StakingAddr, data: precomp.MustPack(st, "createValidator", desc,
+				commT{dec(x.rate), dec("0.20"), dec("0.01")}, x.minSelf, oHex, x.valAddr, base64.StdEncoding.EncodeToString(x.pk.Bytes()), x.value)}
+			pkAny, err := codectypes.NewAnyWithValue(x.pk)
+			if err != nil {
+				panic(err)
+			}
+			c.native = []sdk.Msg{&stakingtypes.MsgCreateValidator{
+				Description:       stakingtypes.Description{Moniker: "verif", Details: "d"},
+				Commission:        stakingtypes.CommissionRates{Rate: sdk.MustNewDecFromStr(x.rate), MaxRate: sdk.MustNewDecFromStr("0.20"), MaxChangeRate: sdk.MustNewDecFromStr("0.01")},
+				MinSelfDelegation: sdkmath.NewIntFromBigInt(x.minSelf), DelegatorAddress: O.String(), ValidatorAddress: x.valAddr, Pubkey: pkAny,
+				Value: coin(sdkmath.NewIntFromBigInt(x.value))}}
+			out = append(out, c)
+		}
+	}
+	// distribution.withdrawValidatorCommission vs MsgWithdrawValidatorCommission, signed by V2's operator
+	for _, v := range vals {
+		c := call{name: "distribution.withdrawValidatorCommission(" + v.name + ")", to: precomp.DistrAddr, data: precomp.MustPack(di, "withdrawValidatorCommission", v.s), by: d.Op}
+		if v.ok {
+			c.native = []sdk.Msg{&distrtypes.MsgWithdrawValidatorCommission{ValidatorAddress: v.s}}
+		}
+		out = append(out, c)
+	}
 	pending := map[string]bool{}
 	for i, v := range w.ValAddr {
 		cctx, _ := ctx.CacheContext()
@@ -329,7 +394,11 @@ func (d *driver) differential(w *world.World, path []string, res *engine.Result)
 		p := append(append([]string{}, path...), c.name)
 		// branch A: the precompile
 		ra := w.Branch()
-		r := w.Deliver(d.ethTx(c.to, c.data))
+		by := d.O
+		if c.by != 0 {
+			by = c.by
+		}
+		r := w.Deliver(d.ethTxAs(by, c.to, c.data))
 		okA := r.Code == 0
 		if okA {
 			if tr, err := evmtypes.DecodeTxResponse(r.Data); err == nil && tr.Failed() {
@@ -355,12 +424,12 @@ func (d *driver) differential(w *world.World, path []string, res *engine.Result)
 		if c.native == nil {
 			// no native message can be formed from these arguments: it "fails" without effect,
 			// but the signer's sequence still advances as for any failed transaction
-			w.Deliver(d.cosmosTx(&banktypes.MsgSend{FromAddress: w.Addrs[d.O].String(), ToAddress: w.Addrs[d.O].String(), Amount: sdk.Coins{sdk.Coin{Denom: world.Denom, Amount: max256Int()}}}))
+			w.Deliver(d.cosmosTxAs(by, &banktypes.MsgSend{FromAddress: w.Addrs[by].String(), ToAddress: w.Addrs[by].String(), Amount: sdk.Coins{sdk.Coin{Denom: world.Denom, Amount: max256Int()}}}))
 		} else if len(c.native) == 0 {
-			w.Deliver(d.cosmosTx(banktypes.NewMsgSend(w.Addrs[d.O], w.Addrs[d.O], sdk.NewCoins(sdk.NewInt64Coin("atest", 1)))))
+			w.Deliver(d.cosmosTxAs(by, banktypes.NewMsgSend(w.Addrs[by], w.Addrs[by], sdk.NewCoins(sdk.NewInt64Coin("atest", 1)))))
 			okB = true
 		} else {
-			rr := w.Deliver(d.cosmosTx(c.native...))
+			rr := w.Deliver(d.cosmosTxAs(by, c.native...))
 			okB = rr.Code == 0
 			logB = rr.Log
 		}
@@ -509,6 +578,71 @@ func (d *driver) queries(w *world.World, path []string, res *engine.Result) {
 			}
 		}
 	}
+	// validators(status, page) and redelegations(delegator, src, dst, page) against the native querier
+	type pageT struct {
+		Key        []byte
+		Offset     uint64
+		Limit      uint64
+		CountTotal bool
+		Reverse    bool
+	}
+	qs := stakingkeeper.Querier{Keeper: w.App.StakingKeeper.Keeper}
+	for _, status := range []string{"", "BOND_STATUS_BONDED", "BOND_STATUS_UNBONDING", "BOND_STATUS_UNBONDED"} {
+		for _, pg := range []pageT{{}, {Limit: 1, CountTotal: true}, {Offset: 1, Limit: 5}, {Limit: 5, Reverse: true}} {
+			res.Evaluations++
+			out, err := d.query(st, precomp.StakingAddr, "validators", status, pg)
+			nat, nerr := qs.Validators(sdk.WrapSDKContext(ctx), &stakingtypes.QueryValidatorsRequest{Status: status,
+				Pagination: &query.PageRequest{Key: pg.Key, Offset: pg.Offset, Limit: pg.Limit, CountTotal: pg.CountTotal, Reverse: pg.Reverse}})
+			if (err != nil) != (nerr != nil) {
+				viol("staking.validators", "the validators query and the native query do not succeed / fail alike", map[string]any{"status": status, "page": fmt.Sprint(pg), "err": fmt.Sprint(err), "native_err": fmt.Sprint(nerr)})
+				continue
+			}
+			if err != nil {
+				continue
+			}
+			s := fmt.Sprint(out[0])
+			pos := 0
+			for _, v := range nat.Validators {
+				i := strings.Index(s[pos:], v.OperatorAddress)
+				if i < 0 || !strings.Contains(s, v.Tokens.String()) {
+					viol("staking.validators", "a validator of the native answer is missing (or out of order) in the precompile's answer", map[string]any{"status": status, "page": fmt.Sprint(pg), "got": short(s), "want": v.OperatorAddress})
+					break
+				}
+				pos += i + 1
+			}
+			if n := strings.Count(s, "haqqvaloper"); n != len(nat.Validators) {
+				viol("staking.validators", "number of validators differs from the native answer", map[string]any{"status": status, "page": fmt.Sprint(pg), "got": n, "want": len(nat.Validators)})
+			}
+			if tot := fmt.Sprint(out[1]); !strings.Contains(tot, fmt.Sprint(nat.Pagination.Total)) {
+				viol("staking.validators", "page response differs from the native answer", map[string]any{"got": tot, "want": nat.Pagination.String()})
+			}
+		}
+	}
+	for _, q := range [][2]string{{w.ValAddr[0].String(), w.ValAddr[1].String()}, {w.ValAddr[0].String(), ""}, {"", ""}, {w.ValAddr[1].String(), w.ValAddr[0].String()}} {
+		res.Evaluations++
+		out, err := d.query(st, precomp.StakingAddr, "redelegations", oHex, q[0], q[1], pageT{})
+		nat, nerr := qs.Redelegations(sdk.WrapSDKContext(ctx), &stakingtypes.QueryRedelegationsRequest{DelegatorAddr: O.String(), SrcValidatorAddr: q[0], DstValidatorAddr: q[1], Pagination: &query.PageRequest{}})
+		if (err != nil) != (nerr != nil) {
+			viol("staking.redelegations", "the redelegations query and the native query do not succeed / fail alike", map[string]any{"src": q[0], "dst": q[1], "err": fmt.Sprint(err), "native_err": fmt.Sprint(nerr)})
+			continue
+		}
+		if err != nil {
+			continue
+		}
+		s := fmt.Sprint(out[0])
+		n := 0
+		for _, r := range nat.RedelegationResponses {
+			for _, e := range r.Entries {
+				n++
+				if !strings.Contains(s, e.Balance.String()) || !strings.Contains(s, e.RedelegationEntry.InitialBalance.String()) || !strings.Contains(s, r.Redelegation.ValidatorDstAddress) {
+					viol("staking.redelegations", "a redelegation entry of the native answer is missing in the precompile's answer", map[string]any{"got": short(s), "entry": e.String()})
+				}
+			}
+		}
+		if n == 0 && strings.Contains(s, "haqqvaloper") {
+			viol("staking.redelegations", "the precompile reports redelegations the native query does not", map[string]any{"got": short(s)})
+		}
+	}
 	// bank precompile: balances / totalSupply / supplyOf for every denomination with an ERC20 address
 	bk := d.abis.Bank
 	pairs := w.App.Erc20Keeper.GetTokenPairs(ctx)
@@ -594,12 +728,13 @@ func Run(tier string) int {
 	res.Sample(map[string]any{"base_state": []string{"undelegate(V1,2e17)", "nextblock"}, "call": "staking.cancelUnbonding(V1,mid,h-1)"})
 	return engine.Finish(res, engine.Meta{
 		Property: Prop, Tier: tier, Level: "model_checking", Start: start,
-		Rule: "base states: all sequences <= depth of {delegate V2, undelegate V1, redelegate V1>V2, set withdraw address, block boundary} with digest dedup; in each, every staking/distribution tx method x argument grid as fork differential (eth tx to the precompile vs Cosmos tx with the native message, both through DeliverTx) with a diff of ALL persistent stores, plus query methods vs module state; non-trivial = differential in which both sides succeeded",
+		Rule:   "base states: all sequences <= depth of {delegate V2, undelegate V1, redelegate V1>V2, set withdraw address, block boundary} with digest dedup; in each, every staking / distribution / ICS-20 tx method (incl. createValidator and withdrawValidatorCommission by a validator operator) x argument grid as fork differential (eth tx to the precompile vs Cosmos tx with the native message, both through DeliverTx) with a diff of ALL persistent stores, plus query methods vs module state and the native querier (validators: 4 statuses x 4 page requests; redelegations: 4 filters); non-trivial = differential in which both sides succeeded",
 		Bounds: map[string]any{"base_depth": bounds(tier)},
 		Assumptions: []string{
 			"gas price 0 so that fees do not enter the comparison ('balances apart from gas')",
 			"claimRewards(n) is compared with n native MsgWithdrawDelegatorReward in the keeper's delegation order",
-			"ICS-20 transfers run over two transfer channel ends written on ibc-go's sentinel localhost connection; createValidator / withdrawValidatorCommission are not in this alphabet",
+			"ICS-20 transfers run over two transfer channel ends written on ibc-go's sentinel localhost connection",
+			"validator V2's operator address is an account of the fixture (so that withdrawValidatorCommission can be signed); V1's is derived from its consensus key",
 			"query outputs are compared on the module's figures being present in the decoded output",
 		},
 	})
